@@ -283,7 +283,7 @@ def malformed_cases(ctx, rng, share):
     out = []
     for site, prod, body in texts:
         ok = rfc8259_accepts(body)
-        cls = "nodata" if body == "" else ("wellformed" if ok else "malformed")
+        cls = "wellformed" if ok else "malformed"
         for ver in ((1.0, 2.0) if ctx.thorough else (rng.choice([1.0, 2.0]),)):
             out.append(dict(sc.make_case(reg, body, ver=ver, uj=rng.random() < 0.25, kind="%s/%s" % (cls, prod.split("/")[0]),
                                          post=rng.random() < 0.04),
@@ -462,7 +462,7 @@ def text_domain(body):
 
 
 def text_layer_check(ctx, results):
-    """For every distinct body of the run: the model's verdict (nodata / wellformed / malformed), what the real text-layer
+    """For every distinct body of the run: the model's verdict (wellformed / malformed), what the real text-layer
     parser (`jsonrpclib.jsonrpc.jloads`, the function `loads` calls) does, and the RFC recogniser.  A difference between the
     model and the real parser is a disagreement (component `jsontext`)."""
     bodies = []
@@ -475,7 +475,7 @@ def text_layer_check(ctx, results):
     if not bodies:
         return
     outs = ctx.lean(["jsontext S" + b.encode("utf-8").hex() for b in bodies])
-    stats = {"nodata": 0, "wellformed": 0, "malformed": 0}
+    stats = {"wellformed": 0, "malformed": 0}
     for b, o in zip(bodies, outs):
         rfc = rfc8259_accepts(b)
         if rfc is None:
@@ -483,11 +483,14 @@ def text_layer_check(ctx, results):
         k, v = impl.outcome(jsonrpclib.jsonrpc.jloads, b)
         if k == "err" and isinstance(v, RecursionError):
             continue
-        real = "nodata" if b == "" else ("malformed" if k == "err" else "wellformed")
-        # `loads` does not hand the empty body to the parser
-        k2, v2 = impl.outcome(jsonrpclib.loads, b, jsonrpclib.config.Config(use_jsonclass=False))
-        real_loads = "malformed" if k2 == "err" else ("nodata" if b == "" and v2 is None else "wellformed")
-        want = "nodata" if b == "" else ("wellformed" if rfc else "malformed")
+        real = "malformed" if k == "err" else "wellformed"
+        real_loads = real
+        if b != "":
+            # `loads` returns None for the empty text without parsing it (the answer to a notification, client side); the
+            # dispatcher rejects the empty body itself (fact emptyBodyRejectedInParseTry, `Z` cases of the srv component)
+            k2, _v2 = impl.outcome(jsonrpclib.loads, b, jsonrpclib.config.Config(use_jsonclass=False))
+            real_loads = "malformed" if k2 == "err" else "wellformed"
+        want = "wellformed" if rfc else "malformed"
         if o != real or o != real_loads:
             ctx.disagree({"body": b[:600]}, "jloads: %s, loads: %s" % (real, real_loads), o, component="jsontext")
         if o != want:
